@@ -401,7 +401,7 @@ func init() {
 		RealStub: map[string]string{"rtmr.ParseCcelWithTdQuote": "real", "verify / validate": "real", "go-eventlog replay": "real (trusted base)", "platform + CA": "stub (world)", "CCEL": "repository sample file"},
 		Runs: func(tier string) int {
 			if tier == "thorough" {
-				return 48
+				return 96
 			}
 			return 12
 		},
